@@ -70,5 +70,5 @@ KERNELS = [
       bounds={0: (1900, 2100), 1: (1, 12), 2: (1, 31), 3: (0, 23), 4: (0, 59), 5: (0, 59), 6: (0, 999999999)}, split=(0, 8), timeout=240),
     K("c03::k_posix_us_ambiguous", pre=lambda a: And(ref_valid_date(a[0], a[1], a[2]), ref_valid_time(a[3], a[4], a[5], a[6])),
       claims=[("all years: gap / fold / unambiguous classification", amb_claim)],
-      bounds={0: (-9999, 9999), 1: (1, 12), 2: (1, 31), 3: (0, 23), 4: (0, 59), 5: (0, 59), 6: (0, 999999999)}, split=(0, 128), timeout=900, tier="thorough"),
+      bounds={0: (-9999, 9999), 1: (1, 12), 2: (1, 31), 3: (0, 23), 4: (0, 59), 5: (0, 59), 6: (0, 999999999)}, split=(0, 128), timeout=900, tier="deep"),
 ]
